@@ -838,7 +838,7 @@ def mon_B(case, pid):
         locked = "wu=locked" in snap_text
         snap = parse_snap(snap_text.replace("wu=locked", "wu=0"))
         clients = {k: v for k, v in pcs.items() if k.startswith("c")}
-        if pid == "C01" and not locked:
+        if pid == "C01" and not locked and not snap["shut"]:
             total = snap["wu"]
             if total < 0 and "neg" not in seen:
                 seen.add("neg")
@@ -852,7 +852,7 @@ def mon_B(case, pid):
             prev_total = total
         mon_B._prev = {id(case): pcs}
         at_rest = pcs.get("w") in ("worker.recv", "worker.drain") and pcs.get("s") in ("sweep.begin", "sweep.end", "finished") and all(v == "client.idle" for v in clients.values()) and snap["q"] == 0
-        if pid == "C05" and at_rest and not locked and all(a != "pending" for a in snap["acks"]) and "C05" not in seen:
+        if pid == "C05" and at_rest and not locked and not snap["shut"] and all(a != "pending" for a in snap["acks"]) and "C05" not in seen:
             total = sum(e["weight"] for e in snap["kw"].values())
             if total != snap["wu"]:
                 seen.add("C05")
@@ -873,12 +873,39 @@ def mon_B(case, pid):
             if hits != buffered + added + dropped + in_flight:
                 seen.add("C15")
                 yield finding("C15", st, f"hits {hits} != buffered {buffered} + delivered {added} + dropped {dropped} + reads between lookup and buffer {in_flight}", "C15/records-not-conserved/layerB")
+        if pid == "C13":
+            sd = getattr(mon_B, "_sd", None)
+            if sd is None or sd.get("case") is not case or st.index <= sd.get("last", -1):
+                sd = {"case": case, "returned": False, "req": {}, "post": set()}
+                mon_B._sd = sd
+            sd["last"] = st.index
+            t = st.ev.split()
+            if len(t) >= 4 and t[1] == "issue":
+                sd["req"][t[2]] = t[3:]
+                if sd["returned"]:
+                    sd["post"].add(t[2])
+                else:
+                    sd["post"].discard(t[2])
+            for piece in out.split(";"):
+                if ":" not in piece or piece == "-":
+                    continue
+                c, res = piece.split(":", 1)
+                cid = c[1:]
+                req = sd["req"].get(cid, ["?"])
+                if req[0] == "shutdown" and res == "none":
+                    sd["returned"] = True
+                elif cid in sd["post"]:
+                    if req[0] in ("putw", "delete", "upsert") and res != "err" and not res.startswith("panic"):
+                        yield finding("C13", st, f"{req[0]} issued after shutdown() had returned answered {res}", "C13/write-after-shutdown/layerB")
+                    if req[0] in ("get", "getref") and res != "value -":
+                        yield finding("C13", st, f"{req[0]} issued after shutdown() had returned answered {res}", "C13/read-after-shutdown/layerB")
         if pid in ("C02", "C04"):
             # per-client bookkeeping of the request in progress
             st_state = getattr(mon_B, "_st", None)
-            if st_state is None or st_state.get("case") is not case:
-                st_state = {"case": case, "req": {}, "deleted": {}, "read": {}, "prev_pcs": {}, "prev_snap": None}
+            if st_state is None or st_state.get("case") is not case or st_state.get("pid") != pid or st.index <= st_state.get("last", -1):
+                st_state = {"case": case, "pid": pid, "req": {}, "deleted": {}, "read": {}, "prev_pcs": {}, "prev_snap": None}
                 mon_B._st = st_state
+            st_state["last"] = st.index
             t = st.ev.split()
             if len(t) >= 4 and t[1] == "issue":
                 st_state["req"][t[2]] = t[3:]
